@@ -655,6 +655,11 @@ func (v Int256Value) BitwiseRightShift(context ValueStaticTypeContext, other Int
 		panic(&NegativeShiftError{})
 	}
 	if !o.BigInt.IsUint64() {
+		// Shifting right by more than the bit size results in the sign:
+		// -1 for negative values, 0 otherwise
+		if v.BigInt.Sign() < 0 {
+			return NewInt256ValueFromInt64(context, -1)
+		}
 		return NewInt256ValueFromInt64(context, 0)
 	}
 
